@@ -340,6 +340,7 @@ func RunCheck(id, tier, repo string, seed int, updateBaseline, quiet, writeEvide
 	solverTime := 0.0
 	smtBytes := 0
 	bySolver := map[string]int{}
+	var focused []string // obligations with a part that only a focused query (fewer hypotheses) decided
 	var okNames []string
 	nParts := 0
 	statusOf := map[string]string{}
@@ -354,6 +355,9 @@ func RunCheck(id, tier, repo string, seed int, updateBaseline, quiet, writeEvide
 		for s, n := range r.Solvers {
 			if s != "" {
 				bySolver[s] += n
+				if strings.Contains(s, "+focus") {
+					focused = append(focused, r.Ob.Name+" ("+s+")")
+				}
 			}
 		}
 		if r.Ob.Class == "vacuity" {
@@ -625,6 +629,7 @@ func RunCheck(id, tier, repo string, seed int, updateBaseline, quiet, writeEvide
 			"load_s":                  round2(eng.LoadSeconds),
 			"smt_bytes":               smtBytes,
 			"discharged_by_solver":    bySolver,
+			"discharged_by_focused_query": focused,
 			"vacuity_guards":          countVacuity(results),
 			"vacuity_failed":          vacuityBad,
 			"vacuity_inconclusive":    vacuityOpen,
